@@ -464,11 +464,8 @@ func refSpacelessStrict(s string) string {
 func (c *SpacelessCase) Exec(t *eng.T) {
 	body := string(c.Body)
 	want := refSpacelessStrict(body)
-	if strings.ContainsAny(body, "<>") && (refSpacelessLine(body) != want) {
-		// stray angle brackets for which "between two HTML tags" can be read in two ways: outside the fragment
-		t.Skip()
-		return
-	}
+	// (a tag is '<', anything but angle brackets - line breaks included -, '>': a '>' in running text ends no tag)
+	_ = refSpacelessLine
 	_ = refSpaceless
 	if want != body {
 		t.Nontrivial()
@@ -802,7 +799,7 @@ func run(r *eng.Runner) {
 	if r.Quick() {
 		n = 5
 	}
-	frs := []string{"<a>", "</a>", "<br/>", "x", " ", "\n\t", "->", "< 2"}
+	frs := []string{"<a>", "</a>", "<br/>", "x", " ", "\n\t", "->", "< 2", "<a\nhref=\"x\">"}
 	r.Group("spaceless", "c15.spaceless", fmt.Sprintf("all sequences of <=%d fragments over %q as the body of spaceless (literal and rendered from a variable)", n, frs))
 	enum.Strings(frs, n, func(s string, _ []int) bool {
 		r.Do(&SpacelessCase{Body: eng.Q(s)})
